@@ -29,6 +29,8 @@ RULES = {
     "C21.7": "the recovery read resumes where it stopped (= C01.8 on the vendored engine copy): read_all recovers in consecutive batch reads, each starting at the cursor the "
              "previous one committed; the two halves of that cursor - (chain index, offset) and (tail block id, tail offset) - are assigned together wherever the batch read "
              "assigns one of them. A log that spans several blocks is otherwise recovered with a whole block of acknowledged records missing",
+    "C21.8": "the vendored engine's reader accepts what its writer acknowledged (= C07.6 on octopii/src/wal/wal): every comparison in Block::read, with which the restart scan "
+             "measures how much of a block is in use, is the header-length sanity test, `entry end > file length` or the checksum comparison",
     "C21.4": "peer addresses: in persist_peer_addr_if_needed the map insert and the `needs persist` flag are set together, and the flag's then-branch `?`-propagates "
              "append_peer_addr_record; load_peer_addr_records and recover_from_wal both read through WriteAheadLog::read_all (so C21.1 covers both)",
 }
@@ -289,6 +291,8 @@ def check_engine_recovery_verifies(ctx):
     check_first_entry_widening(ctx, facts, rid="C21.6")
     from .c01 import check_cursor_pairs
     check_cursor_pairs(ctx, facts, rid="C21.7")
+    from .c07 import check_reader_rejections
+    check_reader_rejections(ctx, facts, rid="C21.8")
 
 
 def run(ctx):
